@@ -45,6 +45,12 @@ type caseSpec struct {
 	Order    string     `json:"order,omitempty"`       // order of file_to_generate: "" = dependency first (topological), "dependent-first" = the file using the other's types is listed first
 	OptKey   string     `json:"opt_key"`               // name of the option set (fingerprints)
 	Param    string     `json:"param"`                 // the plugin parameter string
+
+	// set for members of a fully crossed option group (not part of the replay object): the case
+	// without its options, and the option set as a mask over optAtoms
+	xcross bool
+	xbase  string
+	xmask  int
 }
 
 func (c caseSpec) typesKey() string {
